@@ -8,7 +8,8 @@ from . import c09
 
 ID = "C10"
 RULE = ("streams as for C09 (tails without keysound index) x same-beat modes x join on/off x 3x3 orphan policies of group_notes x 3 policies of "
-        "ungroup_notes: exhaustive on 2 columns x 2 rows (quick) / 3 rows (thorough); random beyond; hand-built grouped sequences with a note inside one "
+        "ungroup_notes: exhaustive on 2 columns x 2 rows (quick) / 3 rows (thorough); random beyond, a third of them well-formed dense streams on 3..6 columns (every head "
+        "closed, tails sharing their beat with notes either side); hand-built grouped sequences with a note inside one "
         "or several open holds; every corpus chart; non-trivial = >= 2 notes")
 assumptions = c09.assumptions + ["no two pending tails share a position (never produced by group_notes; hand-built cases avoid it), so heap order = sorted order"]
 extra_trusted = []
@@ -29,6 +30,31 @@ def enumeration(rows):
 
 def hold(b0, b1, c, t="2", ks=None):
     return [b0, 1, c, t, 0, ks, b1, 1]
+
+
+def wellformed(rng):
+    """a stream as a chart would hold it: every head has its tail, nothing starts inside an open hold; dense rows, so tails share
+    their beat with notes in lower and higher columns"""
+    cols = rng.choice([3, 4, 4, 6])
+    den = rng.choice([1, 1, 2, 4])
+    nb = rng.randrange(3, 10)
+    open_until = [None] * cols
+    ns = []
+    for b in range(nb):
+        for c in range(cols):
+            if open_until[c] is not None:
+                if open_until[c] == b:
+                    ns.append([b, den, c, "3", 0, None]); open_until[c] = None
+                continue
+            if rng.random() < 0.55:
+                if b < nb - 1 and rng.random() < 0.4:
+                    ns.append([b, den, c, rng.choice("24"), 0, rng.choice([None, None, 2])]); open_until[c] = rng.randrange(b + 1, nb)
+                else:
+                    ns.append([b, den, c, rng.choice("11MLF"), 0, None])
+    for n in ns:
+        f = Fraction(n[0], n[1]); n[0], n[1] = f.numerator, f.denominator
+    return {"k": "rt", "ns": ns, "types": c09.ALLTYPES, "mode": rng.choice([1, 2, 3, 3]), "join": rng.random() < 0.85,
+            "ph": rng.choice([1, 2, 3]), "pt": rng.choice([1, 2, 3]), "pol": rng.choice([1, 2, 3])}
 
 
 def corpus():
@@ -73,6 +99,8 @@ def gen(rng, i, tier):
         if len(set(tails)) != len(tails):
             items = [o for o in items if len(o) != 8]
         return {"k": "hand", "groups": [[o] for o in items], "pol": rng.choice([1, 2, 3])}
+    if rng.random() < 0.3:
+        return wellformed(rng)
     c = c09.gen(rng, 10 ** 9, tier)
     for n in c["ns"]:
         if n[3] == "3":
